@@ -574,8 +574,8 @@ fn payload_case<const R: usize>(endian: Endian, ty: Type, shape: [usize; R]) {
         }
         Err(e) => {
             assert!(t % sz != 0);
-            kani::cover!(t > n * sz, "extended by a partial value");
-            kani::cover!(t < n * sz, "cut inside a value");
+            kani::cover!(sz == 1 || t > n * sz, "extended by a partial value (item size > 1)");
+            kani::cover!(sz == 1 || t < n * sz, "cut inside a value (item size > 1)");
             core::mem::forget(e);
         }
     }
